@@ -633,8 +633,11 @@ def oracle(ctx):
         for k1 in RES:
             for k2 in RES[:4] + ["fi", "a", None]:
                 kws = f"{k1}=1" + (f", {k2}=2" if k2 else "")
-                for inner in ("{{ f(%s) }}" % kws, "{%% call f(%s) %%}{%% endcall %%}" % kws, "{{ x|f(%s) }}" % kws,
-                              "{%% call(%s) f() %%}{%% endcall %%}" % kws, "{%% if x is f(%s) %%}{%% endif %%}" % kws):
+                star = [("{{ f(*y, %s) }}" % kws), ("{{ f(1, *y, %s, **x) }}" % kws), ("{{ x|f(*y, %s) }}" % kws),
+                        ("{%% if x is f(*y, %s) %%}{%% endif %%}" % kws), ("{%% call f(*y, %s, **x) %%}{%% endcall %%}" % kws),
+                        ("{{ f(%s, **x) }}" % kws)] if (k2 is None or k2 == "a") else []
+                for inner in star + ["{{ f(%s) }}" % kws, "{%% call f(%s) %%}{%% endcall %%}" % kws, "{{ x|f(%s) }}" % kws,
+                              "{%% call(%s) f() %%}{%% endcall %%}" % kws, "{%% if x is f(%s) %%}{%% endif %%}" % kws]:
                     for cfgname in ("default", "async", "sandbox"):
                         work.append((cfgname, w % inner))
                         n_res += 1
@@ -792,6 +795,53 @@ def oracle(ctx):
     ctx.extra["oracle_wall_s"] = round(time.time() - t0, 1)
 
 
+def _redos_inputs():
+    """long repetitive inputs aimed at the lexer's and the extensions' regular expressions: an ambiguity in a pattern
+    shows as super-linear time on exactly this kind of input"""
+    out = []
+    for k in (30, 45, 70):
+        bs = "\\\\"
+        for q in ('"', "'"):
+            out += ["{{ " + q + bs * k, "{{ " + q + ("\\" + q) * k, "{{ " + q + ("a\\") * k + "a", "{% set x = " + q + bs * k + " %}",
+                    "{{ f(" + q + ("x" + bs) * k, "{{ " + q + bs * k + q + " }}"]
+        out += ["{{ " + "1_" * k, "{{ 1." + "0_" * k + " }}", "{{ 1e" + "1_" * k + " }}", "{{ 0x" + "f_" * k, "{{ " + "1." * k,
+                "{#" + "-" * k, "{#" + " #" * k, "{%" + "-" * k, "{{" + "}" * k, "{% raw %}" + "{% endraw" * k, "{% raw %}" + "{%- endraw " * k,
+                "{{ a" + " " * (k * 40) + "b }}", "{%" + " " * (k * 40) + "x", "a" + "\n" * (k * 10) + "{%- if x %}", "{%- " * k,
+                "# " * k + "\n", "#" + " " * (k * 40) + "for", "## " * k, "{{ a " + "is not " * k, "{{ " + "not " * k + "x }}",
+                "{% trans trimmed %}a" + " " * (k * 100) + "b{% endtrans %}", "{% trans trimmed %}" + "a \n " * (k * 10) + "{% endtrans %}",
+                "{% trans %}" + "%" * (k * 10) + "{% endtrans %}", "{{ _('" + "%(a" * k + "') }}"]
+    return out
+
+
+def _redos_one(item):
+    cfgname, src = item
+    try:
+        return load_outcome(cfgname, src)
+    except BaseException as e:  # noqa
+        return type(e).__name__
+
+
+def redos_stage(ctx):
+    """these loads run in separate processes with a HARD wall-clock limit: a regular expression that backtracks
+    exponentially runs inside one C call, which no signal handler can interrupt"""
+    items = [(c, s_) for s_ in _redos_inputs() for c in ("ext", "line")]
+    ctx.count("oracle_pathological_regex_inputs", len(items))
+    ctx.evaluations += len(items)
+    pool = mp.get_context("fork").Pool(8)
+    try:
+        res = [(it, pool.apply_async(_redos_one, (it,))) for it in items]
+        t_end = time.time() + 60.0
+        for it, r in res:
+            try:
+                w = r.get(timeout=max(0.1, t_end - time.time()))
+            except mp.TimeoutError:
+                w = "loading did not finish within 60 s (not interruptible: inside one regular-expression match)"
+            if w:
+                ctx.reject({"config": it[0], "source": it[1]}, "loading the template: " + w, classify(it[1], w))
+    finally:
+        pool.terminate()
+
+
 def run(ctx):
     jinja2 = lib.use_repo_jinja()
     ctx.extra["rule"] = RULE
@@ -826,6 +876,7 @@ def run(ctx):
     except Exception as e:  # fail-closed translator
         ctx.broken.append(f"translator gen/c01_raises.py failed: {type(e).__name__}: {e}")
     k_gen(ctx, jinja2)
+    redos_stage(ctx)
     oracle(ctx)
 
 
